@@ -14,6 +14,7 @@
 From Coq Require Import ZArith QArith List Bool Lia.
 From Pandora Require Import Lib.Blocks Model.Filters Spec.Filters Proofs.FiltersP Gen.Constants.
 From Pandora Require Lib.BlockSkeleton Proofs.SkelFiltersP Gen.BlockLoops.
+From Pandora Require Import Lib.NpNd Model.FiltersNp Proofs.NpNdP Proofs.FiltersGenP Gen.FilterKernels.
 Import ListNotations.
 Open Scope Z_scope.
 
@@ -271,6 +272,226 @@ Proof.
   intros r c. destruct (H4 r c) as [[Ha Hb] Hc]. repeat split; assumption.
 Qed.
 
+(* ================================================================== the GENERATED filter code
+   Gen/FilterKernels.v is regenerated at every run by translator/gen_filter_kernels.py (Python ast,
+   fail closed) from bilateral.py (normalized_gaussian, gauss_spatial_kernel, bilateral_kernel,
+   filter_bilateral, filter_disparity), median.py (median_filter, filter_disparity) and
+   median_for_intervals.py (filter_disparity): every statement a `let` over the numpy combinators of
+   Lib/NpNd.v (broadcasting, transposition, indexing, nansum, boolean-mask assignment), the double
+   block loop a hole filled with BlockSkeleton.exec of the generated skeleton (Gen/BlockLoops.v).
+   The theorems below are about THOSE definitions: they stop compiling when the code changes what is
+   computed.  [is2 X ny nx f]: X is a well-formed ny x nx array (no numpy error) whose element
+   (r, c) is f r c for every pixel of the image. *)
+
+(* pandora.common.sliding_window as generated (shape tuple (H - w0 + 1,) + (W - w1 + 1,) + shape,
+   strides = base.strides + base.strides, as_strided): on a C-contiguous H x W array, every window
+   size that fits: no error, and element (i, j, a, b) of the view is element (i + a, j + b) of the
+   array (so every offset of the view is inside the array's memory) *)
+Theorem C10_gen_sliding_window : forall (X : nd oq) h w g w0 w1, is2 X h w g ->
+  0 <= w0 <= h -> 0 <= w1 <= w ->
+  is4 (g_sliding_window X [w0; w1]) (h - w0 + 1) (w - w1 + 1) w0 w1 (fun i j a b => g (i + a) (j + b)).
+Proof. exact gen_sliding_window_is. Qed.
+
+(* the body of normalized_gaussian is the Gaussian formula exp(-((x / sigma)^2) * 0.5) / (sigma *
+   sqrt(2 pi)) (exp, sqrt and pi never reach Coq as numbers), which is strictly positive whatever
+   positive exponential / square root / pi interprets it *)
+Theorem C10_gen_normalized_gaussian_is_the_gaussian :
+  g_normalized_gaussian = gaussian_formula /\
+  forall ex sq pi x sigma,
+    (forall y, 0 < ex y)%Q -> (forall y, 0 < y -> 0 < sq y)%Q -> (0 < pi)%Q -> (0 < sigma)%Q ->
+    (0 < geval ex sq pi x sigma g_normalized_gaussian)%Q.
+Proof. split; [reflexivity | exact gaussian_formula_pos]. Qed.
+
+(* WHICH table entry multiplies WHICH pixel (gauss_spatial_kernel): the weight of the neighbour at
+   displacement (dr, dc) from the pixel is the Gaussian datum of dr^2 + dc^2 -- the table is centred
+   on index kernel_size // 2, which is the centre index int(win_width / 2) filter_bilateral uses *)
+Theorem C10_gen_spatial_weight_is_radial : forall ngs ss win dr dc, 0 <= win ->
+  is2 (g_gauss_spatial_kernel ngs win ss) win win (fun a b => Some (gen_sk ngs ss win a b)) /\
+  sp_of (gen_sk ngs ss win) (win / 2) dr dc = ngs ss (dr * dr + dc * dc).
+Proof. intros. split; [apply gauss_spatial_kernel_is; assumption | apply gen_spatial_weight_radial]. Qed.
+
+(* the vectorised bilateral_kernel (two transpositions, a[:, :, off, off], three broadcasts, two
+   nansum): for EVERY batch of n0 x n1 windows of size w (every chunk of every block layout), every
+   w x w table and centre index 0 <= off < w: no broadcasting error, an n0 x n1 result, and element
+   (i, j) is nansum(window * weights) / nansum(weights) of window (i, j) ALONE, with
+   weights[a, b] = table[a, b] * gaussian(window[a, b] - window[off, off]) *)
+Theorem C10_gen_bilateral_kernel_per_window : forall ng W G sc off n0 n1 w gW gG,
+  is4 W n0 n1 w w gW -> is2 G w w gG -> 0 <= off < w ->
+  is2 (g_bilateral_kernel ng W G sc off) n0 n1 (fun i j => bil_formula (ng sc) (gW i j) gG w off).
+Proof. exact gen_bilateral_kernel_is. Qed.
+
+(* ... and that formula is the model's (= the Spec's) weighted mean over the non-NaN pixels of the
+   window: NaN when the centre is NaN; NaN (0 / 0 or x / 0 in numpy) when the weights sum to 0;
+   otherwise sum(w v) / sum(w) *)
+Theorem C10_gen_bilateral_kernel_eq_model_weighted_mean : forall sk rk (data : map2) w off i j,
+  let F := bil_formula rk (fun a b => data (i + a) (j + b)) (fun a b => Some (sk a b)) w off in
+  match data (i + off) (j + off) with
+  | None => F = None
+  | Some cv =>
+      let terms := bil_terms sk rk data w i j cv in
+      if Qeq_bool (sumq (map fst terms)) 0 then F = None
+      else exists x, F = Some x /\ (x == wmean terms)%Q
+  end.
+Proof. exact bil_formula_model. Qed.
+
+(* the expressions the two block loops write are pointwise in the first two axes: the value for
+   element (i, j) does not depend on the chunk W[y0:y1, x0:x1] that holds it (independence of the
+   block layout at the level of the CODE of the kernel, for every chunk shape) *)
+Theorem C10_gen_kernels_chunk_independent :
+  (forall ng W G sc off my mx w gW gG y0 y1 x0 x1 i j,
+     is4 W my mx w w gW -> is2 G w w gG -> 0 <= off < w ->
+     0 <= y0 -> y1 <= my -> 0 <= x0 -> x1 <= mx -> y0 <= i < y1 -> x0 <= j < x1 ->
+     let K := fun X => g_bilateral_kernel ng X G sc off in
+     err (K (np_slice01 W y0 y1 x0 x1)) = false /\ shp (K (np_slice01 W y0 y1 x0 x1)) = [y1 - y0; x1 - x0] /\
+     elt (K (np_slice01 W y0 y1 x0 x1)) [i - y0; j - x0] = kernel_at K W i j /\
+     kernel_at K W i j = bil_formula (ng sc) (gW i j) gG w off) /\
+  (forall W my mx w gW y0 y1 x0 x1 i j,
+     is4 W my mx w w gW ->
+     0 <= y0 -> y1 <= my -> 0 <= x0 -> x1 <= mx -> y0 <= i < y1 -> x0 <= j < x1 ->
+     let K := fun X => np_nanmedian_23 X in
+     err (K (np_slice01 W y0 y1 x0 x1)) = false /\ shp (K (np_slice01 W y0 y1 x0 x1)) = [y1 - y0; x1 - x0] /\
+     elt (K (np_slice01 W y0 y1 x0 x1)) [i - y0; j - x0] = kernel_at K W i j /\
+     kernel_at K W i j = nanmedian (win_list w w (gW i j))).
+Proof. split; [exact gen_bilateral_kernel_chunk | exact gen_nanmedian_chunk]. Qed.
+
+(* generated MedianFilter.median_filter (copy, isnan, early return for a small image, sliding
+   windows, the GENERATED block loop writing np.nanmedian(chunk, axis=(2, 3)), re-NaN) = the model,
+   at every pixel, for every image and filter size >= 0 *)
+Theorem C10_gen_median_filter_eq_model : forall w D ny nx data, 0 <= w -> is2 D ny nx data ->
+  is2 (g_median_filter (skel_block_loop BlockLoops.median_filter) w D) ny nx (median_filter median_block w ny nx data).
+Proof.
+  intros w D ny nx data Hw HD. destruct C10_median_block_loop_skeleton as (_ & Hok & <-).
+  apply gen_median_filter_is_model; assumption.
+Qed.
+
+(* generated BilateralFilter.filter_bilateral (win_width = min(ny, nx, int(3 sigma + 1)), offset =
+   int(win_width / 2), sliding windows, gauss_spatial_kernel(win_width, sigma_space), the GENERATED
+   block loop writing bilateral_kernel(chunk, table, sigma_color, offset), re-NaN) = the model with the
+   generated spatial table and range kernel, per pixel, as rationals, whenever the weights of the
+   pixel's window do not sum to 0 *)
+Theorem C10_gen_filter_bilateral_eq_model : forall ng ngs D ny nx data ss sc,
+  (0 <= ss)%Q -> 1 <= win_width ny nx ss -> is2 D ny nx data ->
+  let win := win_width ny nx ss in
+  let R := g_filter_bilateral ng ngs (skel_block_loop BlockLoops.filter_bilateral) D ss sc in
+  err R = false /\ shp R = [ny; nx] /\
+  forall r c, 0 <= r < ny -> 0 <= c < nx ->
+    (forall cv, data r c = Some cv ->
+       ~ (sumq (map fst (bil_terms (gen_sk ngs ss win) (ng sc) data win (r - win / 2) (c - win / 2) cv)) == 0)%Q) ->
+    oq_eq (elt R [r; c]) (filter_bilateral bilateral_block ny nx ss (gen_sk ngs ss win) (ng sc) data r c).
+Proof.
+  intros ng ngs D ny nx data ss sc Hss Hwin HD. destruct C10_bilateral_block_loop_skeleton as (_ & Hok & <-).
+  apply gen_filter_bilateral_is_model; assumption.
+Qed.
+
+(* C10_median_eq_spec restated on the generated code: MedianFilter.filter_disparity (NaN masking of
+   the pixels with a bit of PANDORA_MSK_PIXEL_INVALID, isfinite, write-back on the finite pixels only)
+   over the generated median_filter over the generated block loop, on ANY dataset: validity mask and
+   confidence bands are the very same arrays, the disparity map is well formed and pixel by pixel the
+   model's output, which satisfies the Spec of the median step *)
+Theorem C10_gen_median_eq_spec : forall rad ds ny nx disp mask, 0 <= rad ->
+  is2 (ds_disp ds) ny nx disp -> is2 (ds_mask ds) ny nx mask ->
+  let ds' := g_median_filter_disparity (g_median_filter (skel_block_loop BlockLoops.median_filter)) (2 * rad + 1) ds in
+  let out := median_filter_disparity msk_pixel_invalid median_block (2 * rad + 1) ny nx disp mask in
+  ds_mask ds' = ds_mask ds /\ ds_band ds' = ds_band ds /\ is2 (ds_disp ds') ny nx (fst out) /\
+  median_step_spec msk_pixel_invalid rad ny nx disp mask (fst out) (snd out).
+Proof.
+  intros rad ds ny nx disp mask Hrad Hd Hm. destruct C10_median_block_loop_skeleton as (_ & Hok & <-).
+  apply gen_median_eq_spec; assumption.
+Qed.
+
+(* C10_bilateral_eq_weighted_mean restated on the generated code, for EVERY Gaussian data ng / ngs
+   whose kernel is nowhere negative and weighs a pixel on itself: mask and bands are the very same
+   arrays; the disparity map is well formed, and (extended outside the image by the write-back
+   formula) satisfies the Spec of the bilateral step: invalid pixels and pixels whose window does
+   not fit unchanged, every other valid pixel the weighted mean of the valid pixels of its window,
+   the weight of the neighbour at (dr, dc) being ngs sigma_space (dr^2 + dc^2) * ng sigma_color (v - own) *)
+Theorem C10_gen_bilateral_eq_weighted_mean : forall ng ngs ss sc ds ny nx disp mask, (0 <= ss)%Q ->
+  let win := win_width ny nx ss in
+  let lo := win / 2 in
+  let hi := win - 1 - lo in
+  1 <= win ->
+  kernel_ok (sp_of (gen_sk ngs ss win) lo) (ng sc) lo hi ->
+  is2 (ds_disp ds) ny nx disp -> is2 (ds_mask ds) ny nx mask ->
+  let ds' := g_bilateral_filter_disparity (g_filter_bilateral ng ngs (skel_block_loop BlockLoops.filter_bilateral)) ss sc ds in
+  let disp' := writeback msk_pixel_invalid disp mask (gen_bil_px ng ngs ss sc ny nx) in
+  ds_mask ds' = ds_mask ds /\ ds_band ds' = ds_band ds /\ is2 (ds_disp ds') ny nx disp' /\
+  bilateral_step_spec msk_pixel_invalid lo hi ny nx (sp_of (gen_sk ngs ss win) lo) (ng sc) disp mask disp' mask.
+Proof.
+  intros ng ngs ss sc ds ny nx disp mask Hss win lo hi Hwin Hk Hd Hm.
+  destruct C10_bilateral_block_loop_skeleton as (_ & Hok & _).
+  apply gen_bilateral_eq_weighted_mean; assumption.
+Qed.
+
+(* hence between the smallest and the largest valid disparity of the window, on the generated code *)
+Theorem C10_gen_bilateral_between_min_max : forall ng ngs ss sc ds ny nx disp mask r c cv, (0 <= ss)%Q ->
+  let win := win_width ny nx ss in
+  let lo := win / 2 in
+  let hi := win - 1 - lo in
+  1 <= win ->
+  kernel_ok (sp_of (gen_sk ngs ss win) lo) (ng sc) lo hi ->
+  is2 (ds_disp ds) ny nx disp -> is2 (ds_mask ds) ny nx mask ->
+  fits lo hi ny nx r c -> valid_disp msk_pixel_invalid disp mask r c = Some cv ->
+  0 <= r < ny -> 0 <= c < nx ->
+  let ds' := g_bilateral_filter_disparity (g_filter_bilateral ng ngs (skel_block_loop BlockLoops.filter_bilateral)) ss sc ds in
+  exists m, elt (ds_disp ds') [r; c] = Some m /\
+            between_min_max m (win_vals (valid_disp msk_pixel_invalid disp mask) lo hi r c).
+Proof.
+  intros ng ngs ss sc ds ny nx disp mask r c cv Hss win lo hi Hwin Hk Hd Hm Hf Hv Hr Hc ds'.
+  destruct (C10_gen_bilateral_eq_weighted_mean ng ngs ss sc ds ny nx disp mask Hss Hwin Hk Hd Hm) as (_ & _ & (_ & _ & Hg) & Hspec).
+  destruct (window_reach win Hwin) as (Hlo & Hhi & _).
+  destruct (bilateral_spec_between _ _ _ _ _ _ _ _ _ _ _ r c cv Hlo Hhi Hk Hspec Hf Hv) as (m & Hm' & Hb).
+  exists m. split; [|exact Hb]. unfold ds'. rewrite Hg by assumption. exact Hm'.
+Qed.
+
+(* the generated filters give every pixel of the image the same value whichever accepted block loop
+   (any block size >= 1, Lib/BlockSkeleton.filter_skeleton_ok) runs them *)
+Theorem C10_gen_block_independent : forall sk sk' rad D ny nx data ng ngs ss sc,
+  is2 D ny nx data -> 0 <= rad ->
+  (BlockSkeleton.filter_skeleton_ok BlockSkeleton.KNanMedian sk = true ->
+   BlockSkeleton.filter_skeleton_ok BlockSkeleton.KNanMedian sk' = true ->
+   forall r c, 0 <= r < ny -> 0 <= c < nx ->
+     elt (g_median_filter (skel_block_loop sk) (2 * rad + 1) D) [r; c]
+     = elt (g_median_filter (skel_block_loop sk') (2 * rad + 1) D) [r; c]) /\
+  (BlockSkeleton.filter_skeleton_ok BlockSkeleton.KBilateral sk = true ->
+   BlockSkeleton.filter_skeleton_ok BlockSkeleton.KBilateral sk' = true ->
+   (0 <= ss)%Q -> 1 <= win_width ny nx ss ->
+   forall r c, 0 <= r < ny -> 0 <= c < nx ->
+     elt (g_filter_bilateral ng ngs (skel_block_loop sk) D ss sc) [r; c]
+     = elt (g_filter_bilateral ng ngs (skel_block_loop sk') D ss sc) [r; c]).
+Proof. exact gen_block_independent. Qed.
+
+(* median_for_intervals.filter_disparity as generated: the disparity map is never touched; each
+   interval-bound band is replaced by the SAME generated median_filter of a copy of that band (= the
+   model's, satisfying the Spec of the array-level median); without regularisation the mask is the
+   very same array; with regularisation (interval_regularization an arbitrary function fed with the
+   filtered bands and the ambiguity band) the bands become its outputs and the mask gets
+   mask[mask_regularization] |= PANDORA_MSK_PIXEL_INTERVAL_REGULARIZED: only bit 11 may change, it is
+   never cleared, and it is raised exactly on the regularisation mask *)
+Theorem C10_gen_mfi_same_median_only_bit11 : forall hreg rad reg ds ny nx disp binf bsup mask, 0 <= rad ->
+  is2 (ds_disp ds) ny nx disp -> is2 (ds_mask ds) ny nx mask ->
+  is2 (ds_band ds KInf) ny nx binf -> is2 (ds_band ds KSup) ny nx bsup ->
+  let h := g_median_filter (skel_block_loop BlockLoops.median_filter) in
+  let w := 2 * rad + 1 in
+  let ds' := g_mfi_filter_disparity h hreg w reg ds in
+  let i1 := h w (ds_band ds KInf) in
+  let s1 := h w (ds_band ds KSup) in
+  ds_disp ds' = ds_disp ds /\
+  is2 i1 ny nx (median_filter median_block w ny nx binf) /\
+  is2 s1 ny nx (median_filter median_block w ny nx bsup) /\
+  median_map_spec rad ny nx binf (median_filter median_block w ny nx binf) /\
+  median_map_spec rad ny nx bsup (median_filter median_block w ny nx bsup) /\
+  (reg = false -> ds_mask ds' = ds_mask ds /\ ds_band ds' KInf = i1 /\ ds_band ds' KSup = s1) /\
+  (reg = true ->
+     let res := hreg i1 s1 (ds_band ds KAmb) in
+     ds_band ds' KInf = fst (fst res) /\ ds_band ds' KSup = snd (fst res) /\
+     forall m, is2 (snd res) ny nx m ->
+       is2 (ds_mask ds') ny nx (fun r c => if m r c then Z.lor (mask r c) (2 ^ 11) else mask r c) /\
+       forall r c, 0 <= r < ny -> 0 <= c < nx -> only_bit11_raised (mask r c) (elt (ds_mask ds') [r; c])).
+Proof.
+  intros hreg rad reg ds ny nx disp binf bsup mask Hrad Hd Hm Hi Hs. destruct C10_median_block_loop_skeleton as (_ & Hok & <-).
+  eapply gen_mfi_spec; eassumption.
+Qed.
+
 (* ================================================================== examples / regressions *)
 
 (* Non-vacuity: a 3 x 4 map, filter size 3, one invalid pixel (flag 2) inside the window of
@@ -312,6 +533,28 @@ Example C10_example_bilateral :
   end.
 Proof. split; [reflexivity|]. split; [split; intros; reflexivity | vm_compute; reflexivity]. Qed.
 
+(* the hypotheses of the C10_gen_* theorems are satisfiable and the generated code RUNS: the
+   generated filter_disparity / median_filter / block loop executed on the 3 x 4 example gives the
+   map of C10_example_hyps, and the generated bilateral chain with the constant Gaussian data 1
+   gives the plain mean 15/4 at pixel (1, 1) *)
+Definition ex_ds : dataset := mkDs (nd2 3 4 ex_disp) (nd2 3 4 ex_mask) (fun _ => nd2 3 4 ex_disp).
+Example C10_gen_example :
+  is2 (ds_disp ex_ds) 3 4 ex_disp /\ is2 (ds_mask ex_ds) 3 4 ex_mask /\
+  (let ds' := g_median_filter_disparity (g_median_filter (skel_block_loop BlockLoops.median_filter)) 3 ex_ds in
+   err (ds_disp ds') = false /\ shp (ds_disp ds') = [3; 4] /\
+   Lib.Arr.to_rows 3 4 (fun2 (ds_disp ds'))
+   = [[Some 1; Some 5; Some 2; Some 9];
+      [Some 7; Some (5 # 2); Some 4; None];
+      [Some 3; Some 100; Some 2; Some 4]]%Q) /\
+  (let ds' := g_bilateral_filter_disparity
+                (g_filter_bilateral (fun _ _ => 1%Q) (fun _ _ => 1%Q) (skel_block_loop BlockLoops.filter_bilateral))
+                (2 # 3) 1 ex_ds in
+   err (ds_disp ds') = false /\
+   match fun2 (ds_disp ds') 1 1 with Some m => (m == 15 # 4)%Q | None => False end).
+Proof.
+  split; [apply nd2_2|]. split; [apply nd2_2|]. split; vm_compute; repeat split; reflexivity.
+Qed.
+
 Print Assumptions C10_block_sizes_wf.
 Print Assumptions C10_median_block_loop_skeleton.
 Print Assumptions C10_bilateral_block_loop_skeleton.
@@ -335,3 +578,16 @@ Print Assumptions C10_bilateral_block_independent.
 Print Assumptions C10_bilateral_reads_image_only.
 Print Assumptions C10_mfi_same_median_on_bands.
 Print Assumptions C10_mfi_only_bit11.
+Print Assumptions C10_gen_sliding_window.
+Print Assumptions C10_gen_normalized_gaussian_is_the_gaussian.
+Print Assumptions C10_gen_spatial_weight_is_radial.
+Print Assumptions C10_gen_bilateral_kernel_per_window.
+Print Assumptions C10_gen_bilateral_kernel_eq_model_weighted_mean.
+Print Assumptions C10_gen_kernels_chunk_independent.
+Print Assumptions C10_gen_median_filter_eq_model.
+Print Assumptions C10_gen_filter_bilateral_eq_model.
+Print Assumptions C10_gen_median_eq_spec.
+Print Assumptions C10_gen_bilateral_eq_weighted_mean.
+Print Assumptions C10_gen_bilateral_between_min_max.
+Print Assumptions C10_gen_block_independent.
+Print Assumptions C10_gen_mfi_same_median_only_bit11.
